@@ -42,7 +42,8 @@ static const std::vector<std::string>& alphabet()
         "-o=a=b",   "-oo",       "-ot",        "-to",       "-t",        "-tt",       "-tu",      "-tz",
         "-t-",      "-t=1",      "-tu=1",      "--tog",     "--tog=1",   "--ugg",     "-z",       "--zz",
         "--zz=1",   "-m",        "--multi=x",  "- ",        "-\xff",     "--\n",      "-p",       "--out=1",
-        "--optx",   "--op",      "--opt-x=1"
+        "--optx",   "--op",      "--opt-x=1",
+        "-t\xff",   "-\xc3\xa4", "--t\xc3\xa4"
     };
     return a;
 }
@@ -252,7 +253,7 @@ int main(int argc, char** argv)
     rep.counters["bound_argv_len_deep_on_4_declarations"] = n_deep;
     rep.counters["declarations"] = decls.size();
     rep.counters["alphabet_tokens"] = alpha.size();
-    rep.notes["rule"] = "12 declarations x every vector of length <= bound over the 51-token byte-level alphabet x "
+    rep.notes["rule"] = "12 declarations x every vector of length <= bound over the 54-token byte-level alphabet x "
                         "environments, plus long-token stress cases; non-trivial = distinct (declaration, token-class "
                         "sequence, environment class) with an option-like or malformed token or a bound environment";
     mc::write_out(a, rep);
